@@ -205,6 +205,156 @@ def setValueAtPos {α} [Inhabited α] (a : NDArr α) (axes : List (List Rat)) (q
   | .error e => .error e
   | .ok ix => setAt a ix v
 
+/-! ## C17: `crop_dim`, `extend_dim`, `crop_dim_width`, `extend_dim_width`, `adjust_dim_width`
+
+  An array seen along one dimension is the list of its samples `(coordinate, datum)`;
+  whatever lives on the other dimensions rides along inside the datum. -/
+
+abbrev Samples (α : Type) := List (Rat × α)
+
+def coordsOf {α} (a : Samples α) : List Rat := a.map Prod.fst
+def dataOf {α} (a : Samples α) : List α := a.map Prod.snd
+
+/-- default `eps` of `crop_dim` / `extend_dim`: the binary64 value of `10e-6`
+    (re-extracted from the signatures on every run, Tie 1) -/
+def defaultEps : Rat := 5902958103587057 / 590295810358705651712
+/-- defaults of `get_dim_step` / `estimate_dim_step`: binary64 `1e-5`, `1e-8` -/
+def defaultRtol : Rat := 5902958103587057 / 590295810358705651712
+def defaultAtol : Rat := 3022314549036573 / 302231454903657293676544
+
+/-- `xarray` label slice `arr.sel({dim: slice(lo, hi)})` on an increasing index: both ends inclusive -/
+def selectRange {α} (a : Samples α) (lo hi : Rat) : Samples α :=
+  a.filter (fun p => decide (lo ≤ p.1) && decide (p.1 ≤ hi))
+
+/-- `crop_dim(arr, dim, start, stop, right_closed, left_closed, eps)` -/
+def cropDim {α} (a : Samples α) (start stop : Option Rat) (leftClosed rightClosed : Bool) (eps : Rat) :
+    Except AErr (Samples α) :=
+  match listMin (coordsOf a), listMax (coordsOf a) with
+  | some cs, some ce =>
+    let lc := match start with | none => true | some _ => leftClosed
+    let s := start.getD cs
+    let rc := match stop with | none => true | some _ => rightClosed
+    let e := stop.getD ce
+    if s > e then .error .invalid
+    else if s < cs ∨ e > ce then .error .invalid
+    else
+      let hi := if rc then e else e - eps
+      let lo := if lc then s else s + eps
+      .ok (selectRange a lo hi)
+  | _, _ => .error .invalid
+
+/-- `np.diff` -/
+def diffs : List Rat → List Rat
+  | x :: y :: rest => (y - x) :: diffs (y :: rest)
+  | _ => []
+
+/-- `get_dim_step`: the `step` attribute when present, else `estimate_dim_step`: the mean of the
+    consecutive differences, `ValueError` when one of them is not within `atol + rtol * |mean|` of
+    it.  `ok none` stands for the NaN a one-point axis without the attribute yields. -/
+def dimStep (attr : Option Rat) (coords : List Rat) : Except AErr (Option Rat) :=
+  match attr with
+  | some s => .ok (some s)
+  | none =>
+    let ds := diffs coords
+    if ds.isEmpty then .ok none
+    else
+      let mean := sumRat ds / (ds.length : Rat)
+      if ds.all (fun d => decide ((d - mean).abs ≤ defaultAtol + defaultRtol * mean.abs)) then .ok (some mean)
+      else .error .invalid
+
+/-- `arr.reindex({dim: coords}, fill_value)`: label lookup, `fill` where the label is new -/
+def reindex {α} (a : Samples α) (newCoords : List Rat) (fill : α) : Samples α :=
+  newCoords.map (fun c => (c, match a.find? (fun p => p.1 == c) with | some p => p.2 | none => fill))
+
+/-- `extend_dim(arr, dim, start, stop, fill_value, eps, left_closed, right_closed)`.
+    New coordinates are generated outward from the current ends:
+    `arange(current_start - step, start, -step)[::-1]` and `arange(last, stop, step)[1:]`,
+    a closed end being moved outward and an open end inward by `eps` first (repaired code,
+    fixes/C17-2: the pinned tree left open ends where they were, so that binary64 rounding
+    inside `arange` decided whether an open end on the lattice was included). -/
+def extendDim {α} (a : Samples α) (stepAttr : Option Rat) (start stop : Option Rat) (fill : α) (eps : Rat)
+    (leftClosed rightClosed : Bool) : Except AErr (Samples α) :=
+  let coords := coordsOf a
+  match listMin coords, listMax coords, coords.getLast? with
+  | some cs, some ce, some last =>
+    let s := start.getD cs
+    let e := stop.getD ce
+    if s > e then .error .invalid
+    else
+      match dimStep stepAttr coords with
+      | .error err => .error err
+      | .ok st =>
+        let s' := if leftClosed then s - eps else s + eps
+        let e' := if rightClosed then e + eps else e - eps
+        let left : Except AErr (List Rat) :=
+          match st with
+          | none => .ok []                               -- NaN: the comparison is false
+          | some step =>
+            if s' ≤ cs - step then
+              (if step = 0 then .error .zerodiv else .ok (arange (cs - step) s' (-step)).reverse)
+            else .ok []
+        let right : Except AErr (List Rat) :=
+          if e' ≥ ce then
+            match st with
+            | none => .error .invalid                    -- arange with a NaN step
+            | some step => if step = 0 then .error .zerodiv else .ok ((arange last e' step).drop 1)
+          else .ok []
+        match left, right with
+        | .error err, _ => .error err
+        | _, .error err => .error err
+        | .ok l, .ok r => .ok (reindex a (l ++ coords ++ r) fill)
+  | _, _, _ => .error .invalid
+
+inductive Pos | start | center | «end»
+  deriving DecidableEq, Repr
+
+/-- `crop_dim_width(array, dim, width, position)`; `none` = a position string that is none of the three -/
+def cropWidth {α} (a : Samples α) (w : Nat) (pos : Option Pos) : Except AErr (Samples α) :=
+  let n := a.length
+  if w ≥ n then .error .invalid
+  else match pos with
+    | some .start => .ok (a.take w)
+    | some .end => .ok (if w = 0 then a else a.drop (n - w))      -- `coords[-0:]` is everything
+    | some .center => .ok ((a.drop (n / 2 - w / 2)).take w)       -- `max(0, n // 2 - w // 2)`
+    | none => .error .invalid
+
+/-- `extend_dim_width(array, dim, width, fill_value, position)`: `extra` new coordinates are
+    generated by count, `current_end + step * arange(1, extra + 1)` and
+    `current_start - step * arange(extra, 0, -1)` (repaired code, fixes/C17-1; over the rationals the
+    pinned tree's `arange(current_end + step, current_end + step + extra * step, step)` is the same
+    list, see `arange_by_count`). -/
+def extendWidth {α} (a : Samples α) (stepAttr : Option Rat) (w : Nat) (fill : α) (pos : Option Pos) :
+    Except AErr (Samples α) :=
+  let coords := coordsOf a
+  match coords.head?, coords.getLast? with
+  | some cs, some ce =>
+    match dimStep stepAttr coords with
+    | .error err => .error err
+    | .ok st =>
+      let n := a.length
+      if n ≥ w then .error .invalid
+      else
+        let extra := w - n
+        match st with
+        | none => .error .invalid       -- NaN step (one-point axis without the attribute): not modelled
+        | some step =>
+          let before (k : Nat) : List Rat := lattice (cs - (k : Rat) * step) step k
+          let after (k : Nat) : List Rat := lattice (ce + step) step k
+          match pos with
+          | some .start => .ok (reindex a (coords ++ after extra) fill)
+          | some .end => .ok (reindex a (before extra ++ coords) fill)
+          | some .center => .ok (reindex a (before (extra / 2) ++ coords ++ after (extra - extra / 2)) fill)
+          | none => .error .invalid
+  | _, _ => .error .index
+
+/-- `adjust_dim_width(array, dim, width, fill_value, position)` -/
+def adjustWidth {α} (a : Samples α) (stepAttr : Option Rat) (w : Int) (fill : α) (pos : Option Pos) :
+    Except AErr (Samples α) :=
+  if w < 1 then .error .invalid
+  else if w.toNat = a.length then .ok a
+  else if w.toNat < a.length then cropWidth a w.toNat pos
+  else extendWidth a stepAttr w.toNat fill pos
+
 /-! ## executable statements of C16, evaluated on the implementation's observed input/output
 
   Their meaning is fixed by `C16_range_spec` / `C16_index_spec` (the model satisfies them) and
